@@ -9,6 +9,7 @@ pub struct Cfg {
     pub seed: u64,
     pub thorough: bool,
     pub only: Option<usize>,
+    pub from: usize,
     pub scale: usize,
 }
 fn probe_str(t: &dyn TypeOps, sl: &[u8]) -> String {
@@ -100,6 +101,7 @@ pub fn run(reg: &[Box<dyn TypeOps>], defaults: &[Option<&'static str>], cfg: &Cf
     let mut big = vec![0u8; 4096];
     for (tid, t) in reg.iter().enumerate() {
         if let Some(o) = cfg.only { if o != tid { continue; } }
+        if tid < cfg.from { continue; }
         let sh = parse(t.desc());
         let mut rng = Rng::new(cfg.seed ^ ((tid as u64 + 1) * 0x51ED270B));
         let al = t.align();
